@@ -80,8 +80,14 @@ fn bin(b: usize, x: P, y: P) -> P {
 
 fn cfg_variant(i: usize) -> OptsCfg {
     let mut c = OptsCfg::default();
-    match i % 6 {
+    match i % 7 {
         0 => {}
+        6 => {
+            // every kind of white space other than the plain blank, leading / trailing / doubled
+            c.descr = Some(DocSpec(vec![(Sty::Text, "\ttab\r\nx\u{a0}y\u{b}z\u{c}".into()), (Sty::Lit, " \u{2028}l\u{2003}m ".into()), (Sty::Text, "\r".into())]));
+            c.header = Some(DocSpec::plain("\u{a0}hdr\t\t"));
+            c.footer = Some(DocSpec::plain("a\u{85}b \n\t\n c"));
+        }
         1 => {
             c.descr = Some(DocSpec::plain("does things\n\nlong description"));
             c.version = Some(DocSpec::plain("1.0"));
@@ -169,6 +175,11 @@ fn hostile(o: &Opts) -> Vec<Tok> {
     a.push(Tok(vec![b'-', 0xff]));
     a.push(Tok(vec![b'-', b'-', 0xff, b'=', 0xff]));
     a.push(Tok(vec![0xff]));
+    // white space other than the plain blank, in words, values and names (they end up in
+    // messages that are wrapped for the terminal)
+    for w in ["a\tb", "\t", "\r", "x\r", "\n", " ", "a b", "\u{a0}", "a\u{a0}b", "\u{b}x", "x\u{c}", "\u{85}", "\u{2028}y", "\u{2003}", "1\t2", "--alpha=a\tb", "--alpha=\r", "--al\tpha", "-a\t", "-\t", "--\u{a0}", "-a=\u{a0}"] {
+        a.push(Tok::s(w));
+    }
     // single-dash and double-dash items whose name starts with a stray continuation byte, a
     // truncated 2-, 3- or 4-byte sequence or an invalid byte, bare / with `=` / with a body
     for lead in [&[0x80u8][..], &[0xC3], &[0xE4, 0xB8], &[0xF0, 0x9F], &[0xF0], &[0xFF], "é".as_bytes(), "🦀".as_bytes()] {
@@ -219,6 +230,7 @@ fn hostile_small(o: &Opts) -> Vec<Tok> {
     k.push(Tok(vec![b'-', 0xff]));
     k.push(Tok(vec![0xff]));
     k.push(Tok(vec![b'-', 0xC3, b'=', b'x']));
+    k.push(Tok::s("1\t2"));
     k.extend(declared(o));
     k.sort();
     k.dedup();
@@ -484,7 +496,7 @@ impl Check for C04 {
         }
     }
     fn rule(&self) -> String {
-        "definitions = shape grammar: 9 leaves (switch, req_flag, OsString/u32 argument, positional, strict positional, command, pure, fail) under every wrapper (16: optional, optional+catch, many, some, collect+catch, count, last, fallback, failing fallback_with, guard, parse, hide, hide_usage, group_help with a styled non-ASCII title, complete, complete_shell), every wrapper pair (quick: 9 outer wrappers), every binary combination seq/alt/adjacent of two leaves bare, wrapped as a whole and with either side wrapped (thorough: also triples), with 6 rotating option-level configurations (styled multi-fragment non-ASCII descr/header/footer, version, fallback_to_usage, custom help names + usage, max_width), plus nested adjacent structures (group in group, group below an adjacent command) walked to 6-8 items over their own alphabets, group shapes, general shapes and command trees of the other checks; kept iff check_invariants returns; inputs = every single-item vector over the hostile alphabet and every vector of length <= 2 over its sharpest members plus the declared names (empty string, lone dashes, `=` forms, invalid UTF-8 names and values (stray continuation bytes, truncated 2/3/4-byte sequences, bare / with = / with a body), 200-character cluster and word; 600-character cluster / word / value as single-item vectors, help/version tokens, declared names) in 11 modes (parse, parse with name, completion rev 0/1/7/8/9 with name, 1/7/8/9 without) + completion marker first/last; render_markdown/html/manpage once per definition; histories: every length<=1 vector re-run on the used object and on a second object in reverse order; violation = panic (caught), process death or hang (supervisor), or differing outcome; non-trivial = non-panicking run of a non-empty vector".into()
+        "definitions = shape grammar: 9 leaves (switch, req_flag, OsString/u32 argument, positional, strict positional, command, pure, fail) under every wrapper (16: optional, optional+catch, many, some, collect+catch, count, last, fallback, failing fallback_with, guard, parse, hide, hide_usage, group_help with a styled non-ASCII title, complete, complete_shell), every wrapper pair (quick: 9 outer wrappers), every binary combination seq/alt/adjacent of two leaves bare, wrapped as a whole and with either side wrapped (thorough: also triples), with 7 rotating option-level configurations (styled multi-fragment non-ASCII descr/header/footer, texts made of every kind of Unicode white space, version, fallback_to_usage, custom help names + usage, max_width), plus nested adjacent structures (group in group, group below an adjacent command) walked to 6-8 items over their own alphabets, group shapes, general shapes and command trees of the other checks; kept iff check_invariants returns; inputs = every single-item vector over the hostile alphabet and every vector of length <= 2 over its sharpest members plus the declared names (empty string, lone dashes, `=` forms, white space other than the blank (tab, CR, LF, VT, FF, NEL, NBSP, U+2003, U+2028) in words / values / names, invalid UTF-8 names and values (stray continuation bytes, truncated 2/3/4-byte sequences, bare / with = / with a body), 200-character cluster and word; 600-character cluster / word / value as single-item vectors, help/version tokens, declared names) in 11 modes (parse, parse with name, completion rev 0/1/7/8/9 with name, 1/7/8/9 without) + completion marker first/last; render_markdown/html/manpage once per definition; histories: every length<=1 vector re-run on the used object and on a second object in reverse order; violation = panic (caught), process death or hang (supervisor), or differing outcome; non-trivial = non-panicking run of a non-empty vector".into()
     }
     fn bounds(&self, tier: Tier) -> Value {
         json!({"ast_size": tier.pick("<=4 nodes + option-level config", "<=5"), "vector_length": 2, "modes": 17})
